@@ -85,6 +85,8 @@ def harnesses(tier, seed):
                          ("reduce_xor", "MF"), ("reduce_xor", "FMF"), ("reduce_xor", "FLF")):
             for nt in (2, 3):
                 for c in (1, 2):
+                    if ty == "FLF" and (c == 2 or nt == 3):
+                        continue
                     hs.append(e2e(term, ty, nt, 4, c, 4))
         hs.append(e2e("count", "MF", 6, 6, 1, 8))
         for ty, cv in (("M", (1, 1, 1)), ("MF", (1, 0, 1)), ("FMF", (0, 1, 1)), ("FLF", (1, 2, 0))):
